@@ -98,7 +98,7 @@ class Rel16(Rel):
         return None
 
 
-OFF8 = lambda: Int(-128, 127, rej_from=256)
+OFF8 = lambda: Int(-128, 127, rej_from=256, far=False)      # (a valid offset + 2^16 is the same offset in 16 bit address arithmetic)
 class _ShiftedBit(Int):
     """bit number written inside (bit<<16): a value of 2^47 and more leaves AS's 64 bit integers when shifted and wraps
     to a valid bit number - excluded instead of expected to be rejected"""
